@@ -219,6 +219,56 @@ func judgeOthers(out *Out, cause string, before, after map[string]lpSnap, self s
 	}
 }
 
+// a directed step of a history (list-length thresholds: many small requests, then a large one, then
+// removals at the boundaries of the window between the newest old record's maturity and the new request's)
+type scriptOp struct {
+	kind  string // par add unlock rmu
+	pi    int
+	dh    int64
+	units func(lp *clptypes.LiquidityProvider) sdk.Uint
+	L, C  uint64
+}
+
+// manySmallRequests: lock period Ld, long cancel period; provider 0 gets units, files nSmall requests
+// of 1..3 units one block apart (optionally some in the same block), then requests half of its
+// units two blocks later, then tries to remove exactly that half at: maturity of the newest small
+// request, one block before the large request's own maturity, and at that maturity.
+func manySmallRequests(rng *Rng, Ld uint64, nSmall int) []scriptOp {
+	half := func(lp *clptypes.LiquidityProvider) sdk.Uint {
+		if lp == nil {
+			return sdk.OneUint()
+		}
+		return lp.LiquidityProviderUnits.QuoUint64(2)
+	}
+	var big sdk.Uint
+	sc := []scriptOp{{kind: "par", L: Ld, C: 1000000}, {kind: "add", pi: 0, dh: 1}}
+	for i := 0; i < nSmall; i++ {
+		u := uint64(1 + rng.Intn(3))
+		dh := int64(1)
+		if i > 0 && rng.Chance(1, 6) {
+			dh = 0
+		}
+		if i == nSmall-1 {
+			dh = 1 // the newest small request has a height of its own
+		}
+		sc = append(sc, scriptOp{kind: "unlock", pi: 0, dh: dh, units: func(*clptypes.LiquidityProvider) sdk.Uint { return sdk.NewUint(u) }})
+	}
+	sc = append(sc, scriptOp{kind: "unlock", pi: 0, dh: 2, units: func(lp *clptypes.LiquidityProvider) sdk.Uint { big = half(lp); return big }})
+	same := func(*clptypes.LiquidityProvider) sdk.Uint { return big }
+	first := int64(Ld) - 2 // newest small request was 2 blocks before the large one
+	if first < 0 {
+		first = 0
+	}
+	sc = append(sc, scriptOp{kind: "rmu", pi: 0, dh: first, units: same})
+	if Ld >= 2 {
+		sc = append(sc, scriptOp{kind: "rmu", pi: 0, dh: 1, units: same})
+	}
+	sc = append(sc, scriptOp{kind: "rmu", pi: 0, dh: 1, units: same})
+	return sc
+}
+
+var listThresholds = []int{15, 16, 17, 18, 31, 32, 33, 40, 64, 100, 101}
+
 var periodChoices = []uint64{0, 0, 1, 1, 3, 3, 50, 50, 1000000}
 var periodWrap = []uint64{1 << 62, 1<<63 - 1, 1 << 63, 1<<64 - 1}
 
@@ -226,6 +276,7 @@ func init() {
 	families["unlock"] = func(rng *Rng, n int, out *Out, replay string) {
 		const perHistory = 160
 		nProv := 4
+		histNo := 0
 		for done := 0; done < n; {
 			e := newEnv(nProv+1, unlockPools)
 			whale := e.accts[nProv]
@@ -279,15 +330,28 @@ func init() {
 			out.Emit(fmt.Sprintf("# cfg ratio=%v margin=%v queue=%v threshold=%s liabilities=%s", ratio, marginPools, queueOn, threshold, liab), "bad-op",
 				fmt.Sprintf("cfg.margin%d.queue%v.thr%s", len(marginPools), queueOn, threshold), false)
 			lastHookHeight := h
+			var script []scriptOp
+			if histNo%3 == 0 { // every third history starts with a directed list-length script
+				script = manySmallRequests(rng, []uint64{3, 10, 2, 50}[rng.Intn(4)], listThresholds[(histNo/3)%len(listThresholds)])
+			}
+			histNo++
 			for k := 0; k < perHistory && done < n; k++ {
 				done++
+				var sc *scriptOp
+				if len(script) > 0 {
+					sc = &script[0]
+					script = script[1:]
+				}
 				pi := rng.Intn(nProv)
 				if k < 2*nProv {
 					pi = k % nProv
 				}
+				if sc != nil {
+					pi = sc.pi
+				}
 				prov := e.accts[pi]
 				pool := unlockPools[rng.Intn(len(unlockPools))]
-				if rng.Chance(3, 4) {
+				if rng.Chance(3, 4) || sc != nil {
 					pool = unlockPools[0] // most traffic on one pool so that requests interact
 				}
 				key := fmt.Sprintf("%s/p%d", pool, pi)
@@ -296,10 +360,15 @@ func init() {
 				if k < 2*nProv && rng.Chance(3, 4) {
 					op = 10 // start most histories by giving the providers units
 				}
+				if sc != nil {
+					op = map[string]int{"par": 0, "add": 10, "unlock": 30, "rmu": 70}[sc.kind]
+				}
 				// advance the height: usually a little; before removals and cancels often exactly onto a
 				// maturity / expiry boundary of one of the provider's own requests
 				aim := lpBefore != nil && len(lpBefore.Unlocks) > 0 && L < 1<<40 && C < 1<<40
 				switch {
+				case sc != nil:
+					h += sc.dh
 				case aim && op >= 50 && rng.Chance(2, 3), aim && rng.Chance(1, 6):
 					r := lpBefore.Unlocks[0]
 					if rng.Chance(1, 3) {
@@ -404,6 +473,9 @@ func init() {
 					if rng.Chance(1, 20) {
 						nc = periodWrap[rng.Intn(len(periodWrap))]
 					}
+					if sc != nil {
+						nl, nc = sc.L, sc.C
+					}
 					msg := &clptypes.MsgUpdateRewardsParamsRequest{Signer: e.admin.String(), LiquidityRemovalLockPeriod: nl, LiquidityRemovalCancelPeriod: nc}
 					err, _ := e.deliver(h, msg.ValidateBasic, func(ctx sdk.Context) error { _, err := e.clp.UpdateRewardsParams(sdk.WrapSDKContext(ctx), msg); return err })
 					if err != nil {
@@ -424,6 +496,9 @@ func init() {
 						amt = pow10(18)
 					default:
 						amt = sdk.NewUintFromBigInt(rng.BigBits(10 + rng.Intn(60)))
+					}
+					if sc != nil {
+						amt = pow10(18)
 					}
 					ext := amt.MulUint64(ratio[pool]) // about the pool's own ratio
 					msg := &clptypes.MsgAddLiquidity{Signer: prov.String(), ExternalAsset: &clptypes.Asset{Symbol: pool}, NativeAssetAmount: amt, ExternalAssetAmount: ext}
@@ -454,6 +529,9 @@ func init() {
 				case op < 50:
 					kind = "unlock"
 					reqUnits = pickUnits()
+					if sc != nil {
+						reqUnits = sc.units(lpBefore)
+					}
 					msg := &clptypes.MsgUnlockLiquidityRequest{Signer: prov.String(), ExternalAsset: &clptypes.Asset{Symbol: pool}, Units: reqUnits}
 					line = fmt.Sprintf("tx %d %s unlock %s", h, key, reqUnits)
 					err, pan = e.deliver(h, msg.ValidateBasic, func(ctx sdk.Context) error { _, err := e.clp.UnlockLiquidity(sdk.WrapSDKContext(ctx), msg); return err })
@@ -476,6 +554,9 @@ func init() {
 						if w.IsZero() {
 							w = sdk.OneUint()
 						}
+					}
+					if sc != nil {
+						w = sc.units(lpBefore)
 					}
 					rmW = w
 					msg := &clptypes.MsgRemoveLiquidityUnits{Signer: prov.String(), ExternalAsset: &clptypes.Asset{Symbol: pool}, WithdrawUnits: w}
